@@ -210,6 +210,9 @@ def install():
     def wrap_socket(self, sock, *a, **k):
         if isinstance(sock, _net.SimSocket):
             _count("ssl.wrap_socket")
+            err = getattr(sock.conn, "tls_error", None) if sock.conn is not None else None
+            if err is not None:
+                raise err
             t = _net.SimTLSSocket(sock, context=self, server_hostname=k.get("server_hostname"))
             if NETWORK is not None:
                 NETWORK.tls_wraps.append(t.context_snapshot)
